@@ -180,7 +180,12 @@ def build_incremental(env, cls, cfg, faults=None, ctor_kwargs=None):
         loss = UFLoss(env, faults=faults, flavor=cfg.get('loss_type', 'py'))
     dynamic = cfg.get('mode', 'static') == 'dynamic'
     alpha = None
-    if dynamic:
+    if dynamic and 'alpha_value' in cfg:
+        from fractions import Fraction
+        alpha = Fraction(cfg['alpha_value'])      # long explicit histories: a concrete alpha keeps the claims low-degree
+        if env.mode != 'sym' and env.numeric != 'fraction':
+            alpha = float(alpha)
+    elif dynamic:
         alpha = env.real('alpha')
         env.assume(And(alpha > 0, alpha <= 1))
     storage, rows, ys = build_storage(env, cfg.get('storage', 'batch'), names, m, store_targets=cfg.get('targets', True),
